@@ -170,7 +170,7 @@ def clip_sysex(cx, L):
 
 
 BOUNDS = {
-    'quick': 'write direction: every ordered pair of the 37 message kinds in one track (attributes symbolic in range, first '
+    'quick': 'write direction: every ordered pair of the 27 message kinds in one track (attributes symbolic in range, first '
              'delta in [0,2^28)), 2-track/type 0/type 2 variants, sandwiches [a, x, a] of a channel message around each event class, representative pairs with both deltas wide; read direction: '
              'ordered pairs of 7 representative kinds x legal alternative encodings (running status per event, VLQ padding 1..2 on each '
              'delta and 1 on each length, header chunk length 7..8: each alternative on its own and all at once; the full '
